@@ -87,6 +87,15 @@ def must_defer(c):
     return z3.Not(deferred_cond(c, c.new('_kex_complete')))
 
 
+def kex_progress(c):
+    """messages the exchange itself needs (DISCONNECT, KEXINIT, NEWKEYS, method-specific 30..49) are never queued"""
+    if c.raised is not None:
+        return z3.BoolVal(True)
+    t = c.arg('pkttype')
+    needed = z3.Or(t == 1, t == 20, t == 21, z3.And(t >= 30, t <= 49))
+    return z3.Implies(needed, z3.BoolVal(len(own_sends(c)) == 1))
+
+
 def trigger(c):
     """an exchange is started iff authenticated, idle, and a byte or time limit was reached"""
     started = z3.BoolVal(len(c.events('send_kexinit')) == 1)
@@ -210,7 +219,8 @@ _recursive_stub.modifies = ('_send_seq', '_rekey_bytes_sent')
 send_packet = _mk_send_packet(
     'C11',
     ensures=[('queued-xor-emitted', never_both), ('seq-rule', seq_rule)],
-    always=[('kex-gate', gate), ('forbidden-types-are-deferred', must_defer), ('rekey-trigger', trigger)])
+    always=[('kex-gate', gate), ('forbidden-types-are-deferred', must_defer), ('rekey-trigger', trigger),
+            ('kex-messages-never-queued', kex_progress)])
 send_packet.stubs['self.send_packet'] = _recursive_stub
 
 
@@ -228,24 +238,27 @@ def resubmit_stub(cx):
 
 resubmit_stub.modifies = ()
 
+SEQT = 'seq[' + TUP + ']'
 send_deferred = Spec(
     'C11', 'connection', 'SSHConnection._send_deferred_packets', self_class='SSHConnection',
     classes=CONN_CLASSES,
     stubs={'self.send_packet': contract_stub(lambda: send_packet_callee)},
-    loops={1: LoopSpec(header='for pkttype, args in deferred_packets',
-                       modifies=['_kex_complete', '_rekey_bytes_sent', '_rekey_time', '_send_seq',
-                                 '_kexinit_sent', '_deferred_packets', 'ghost_resubmitted'],
+    loops={1: LoopSpec(modifies=['_kex_complete', '_rekey_bytes_sent', '_rekey_time', '_send_seq',
+                                 '_kexinit_sent', '_deferred_packets', 'ghost_resubmitted', 'ghost_requeued'],
                        invariant=lambda c: z3.And(
                            send_inv(c, old=False),
                            # ghost: the packets resubmitted so far are exactly the first i queued ones, in order
-                           c.new('ghost_resubmitted') == z3.Extract(c.local('deferred_packets'), 0,
-                                                                    c.extra['i'])))},
+                           c.new('ghost_resubmitted') == z3.Extract(c.extra['iter'].z, 0, c.extra['i']),
+                           # whatever a nested key exchange re-queued during the flush is still queued, in order
+                           c.new('_deferred_packets') == c.new('ghost_requeued')))},
     requires=lambda c: z3.And(send_inv(c), z3.Length(c.old('ghost_resubmitted')) == 0,
+                              z3.Length(c.old('ghost_requeued')) == 0,
                               all_types_ok(c.old('_deferred_packets'))),
-    ensures=[('fifo-all-once', lambda c: c.new('ghost_resubmitted') == c.old('_deferred_packets'))],
+    ensures=[('fifo-all-once', lambda c: c.new('ghost_resubmitted') == c.old('_deferred_packets')),
+             ('requeued-packets-survive', lambda c: c.new('_deferred_packets') == c.new('ghost_requeued'))],
     raises={'ProtocolError': True, 'CompressionError': True})
 send_deferred.classes['SSHConnection'] = dict(send_deferred.classes['SSHConnection'],
-                                              ghost_resubmitted=parse_type('seq[' + TUP + ']'))
+                                              ghost_resubmitted=parse_type(SEQT), ghost_requeued=parse_type(SEQT))
 
 
 def all_types_ok(seq):
@@ -261,8 +274,15 @@ send_packet_callee = Spec(
     params=dict(pkttype='int', args='seq[bytes]'),
     requires=lambda c: z3.And(send_inv(c), c.arg('pkttype') >= 1, c.arg('pkttype') <= 255),
     modifies=['_kex_complete', '_rekey_bytes_sent', '_rekey_time', '_send_seq', '_kexinit_sent',
-              '_deferred_packets', 'ghost_resubmitted'],
+              '_deferred_packets', 'ghost_resubmitted', 'ghost_requeued'],
     ensures=[('inv', lambda c: send_inv(c, old=False)),
+             # from queued-xor-emitted (proved on send_packet itself): queue unchanged, or extended by this packet
+             ('queued-xor-emitted', lambda c: (lambda e: z3.Or(
+                 z3.And(c.new('_deferred_packets') == c.old('_deferred_packets'),
+                        c.new('ghost_requeued') == c.old('ghost_requeued')),
+                 z3.And(c.new('_deferred_packets') == z3.Concat(c.old('_deferred_packets'), z3.Unit(e)),
+                        c.new('ghost_requeued') == z3.Concat(c.old('ghost_requeued'), z3.Unit(e)))))(
+                 to_z3(VTuple([c.argv('pkttype'), c.argv('args')]), TUP))),
              ('ghost-log', lambda c: c.new('ghost_resubmitted') == z3.Concat(
                  c.old('ghost_resubmitted'),
                  z3.Unit(to_z3(VTuple([c.argv('pkttype'), c.argv('args')]), TUP))))],
